@@ -115,7 +115,7 @@ def main():
     old = {}
     if os.path.exists(os.path.join(d, "meta.json")):
         old = json.load(open(os.path.join(d, "meta.json")))
-    for k in ("summary", "needs", "breaks_property", "history", "first_evaluation"):
+    for k in ("summary", "needs", "breaks_property", "history", "first_evaluation", "verdict", "rebased"):
         if k in old:
             meta[k] = old[k]
     if a.no_tests and "suite_ok" in old:
